@@ -165,6 +165,8 @@ class P:
                     result = e      # trailing expression statement (assignment forms)
                 else:
                     lets.append(['_', e])
+            elif self.i < self.end and e[0] in ('if', 'match', 'block', 'opaque'):
+                lets.append(['_', e])       # block-like expression statement (`if c { return … }`)
             else:
                 result = e
         if result is None and lets and lets[-1][0] == '_':
@@ -185,6 +187,11 @@ class P:
                 self.next()
                 rhs = self.expr(PREC[t] + 1)
                 lhs = ['bin', t, lhs, rhs]
+                continue
+            if k == 'id' and t == 'as':
+                self.next()
+                ty, targs = self.path()
+                lhs = ['cast', lhs, ty + ('<' + ', '.join(targs) + '>' if targs else '')]
                 continue
             # the base-factor repetition:  X $( * … )+
             if k == 'p' and t == '$' and self.peek(1) == ('p', '('):
@@ -272,6 +279,17 @@ class P:
                 self.next()
                 e = ['try', e]
                 continue
+            if self.at('p', '$') and self.peek(1) == ('p', '(') and self.peek(2) == ('p', '.'):
+                self.next()
+                j = match_close(self.t, self.i)
+                sub = P(self.t, self.i + 1, j)
+                chain = sub.postfix(['rep_hole'])
+                if sub.i != sub.end:
+                    raise BodyError('method-chain repetition')
+                self.i = j + 1
+                self.expect('p', '+')
+                e = ['rep_chain', e, chain]
+                continue
             return e
 
     def atom(self):
@@ -279,7 +297,13 @@ class P:
         if k == 'num':
             self.next()
             return ['lit', t]
-        if k in ('str', 'chr', 'life'):
+        if k == 'str':
+            self.next()
+            return ['strlit', t]
+        if k == 'chr':
+            self.next()
+            return ['chrlit', t]
+        if k == 'life':
             self.next()
             return ['lit', repr(t)]
         if k == 'p' and t == '(':
@@ -291,23 +315,68 @@ class P:
                 if sub.at('p', ','):
                     sub.next()
             self.i = j + 1
+            if not items:
+                return ['lit', '()']
             return items[0] if len(items) == 1 else ['tuple', items]
         if k == 'p' and t == '{':
             b = self.block()
             return ['block', b]
-        if k == 'p' and t == '|':       # closure: opaque
-            j = self.i + 1
-            while self.t[j] != ('p', '|'):
-                j += 1
+        if k == 'p' and t in ('|', '||'):       # closure
+            start = self.i
+            try:
+                pats = []
+                if t == '||':
+                    self.next()
+                else:
+                    self.next()
+                    while not self.at('p', '|'):
+                        pats.append(self.pattern1())
+                        if self.at('p', ':'):       # type annotation
+                            self.next()
+                            depth = 0
+                            while not (depth == 0 and (self.at('p', ',') or self.at('p', '|'))):
+                                _k, tt = self.next()
+                                if tt == '<': depth += 1
+                                if tt == '>': depth -= 1
+                        if self.at('p', ','):
+                            self.next()
+                    self.next()
+                if self.at('p', '{'):
+                    body = ['block', self.block()]
+                else:
+                    body = self.expr(1)
+                return ['closure', pats, body]
+            except BodyError:
+                self.i = start
+                j = self.i + 1
+                while self.t[j] != ('p', '|'):
+                    j += 1
+                self.i = j + 1
+                if self.at('p', '{'):
+                    e = match_close(self.t, self.i)
+                    txt = self.text(self.i, e + 1)
+                    self.i = e + 1
+                else:
+                    txt = str(self.expr(1))
+                return ['opaque', 'closure ' + txt]
+        if k == 'id' and t == 'return':
+            self.next()
+            if self.i >= self.end or self.at('p', ';'):
+                return ['return', ['lit', '()']]
+            return ['return', self.expr()]
+        if k == 'id' and not t.startswith('$') and self.peek(1) == ('p', '!') and self.peek(2)[0] == 'p' \
+                and self.peek(2)[1] in ('(', '[', '{'):
+            self.next()
+            self.next()
+            j = match_close(self.t, self.i)
+            sub = P(self.t, self.i + 1, j)
+            items = []
+            while sub.i < sub.end:
+                items.append(sub.expr())
+                if sub.at('p', ','):
+                    sub.next()
             self.i = j + 1
-            if self.at('p', '{'):
-                e = match_close(self.t, self.i)
-                txt = self.text(self.i, e + 1)
-                self.i = e + 1
-            else:
-                inner = self.expr(1)
-                txt = str(inner)
-            return ['opaque', 'closure ' + txt]
+            return ['macro', t, items]
         if k == 'id' and t == 'if':
             self.next()
             # condition: expression up to '{' (no struct literals in conditions)
@@ -322,13 +391,23 @@ class P:
                     eb = self.block()
             return ['if', c, tb, eb]
         if k == 'id' and t == 'match':
+            start = self.i
             self.next()
-            while not self.at('p', '{'):
-                self.next()
-            j = match_close(self.t, self.i)
-            txt = self.text(self.i, j + 1)
-            self.i = j + 1
-            return ['opaque', 'match ' + txt]
+            try:
+                scrut = self.expr_no_struct()
+                self.expect('p', '{')
+                end = match_close(self.t, self.i - 1)
+                arms = P(self.t, self.i, end).arms()
+                self.i = end + 1
+                return ['match', scrut, arms]
+            except BodyError:
+                self.i = start + 1
+                while not self.at('p', '{'):
+                    self.next()
+                j = match_close(self.t, self.i)
+                txt = self.text(self.i, j + 1)
+                self.i = j + 1
+                return ['opaque', 'match ' + txt]
         if k == 'id' or (k == 'p' and t == '<'):
             if k == 'id' and t.startswith('$') and self.peek(1) != ('p', '::') and not (
                     self.peek(1) == ('p', '{') and not getattr(self, 'no_struct', False)):
@@ -361,6 +440,89 @@ class P:
                 return ['path', name, targs]
             return ['var', name]
         raise BodyError('unexpected token %s %r' % (k, t))
+
+    def arms(self):
+        out = []
+        while self.i < self.end:
+            if self.at('p', '#'):
+                self.next()
+                j = match_close(self.t, self.i)
+                self.i = j + 1
+                continue
+            if self.at('p', '$') and self.peek(1) == ('p', '('):
+                self.next()
+                j = match_close(self.t, self.i)
+                inner = P(self.t, self.i + 1, j).arms()
+                self.i = j + 1
+                self.expect('p', '+')
+                for a in inner:
+                    if a[0] != 'arm':
+                        raise BodyError('nested repetition in match arms')
+                    out.append(['rep', a[1], a[2]])
+                continue
+            pat = self.pattern()
+            if self.at('id', 'if'):
+                raise BodyError('match guard')
+            self.expect('p', '=>')
+            body = self.expr()
+            if self.at('p', ','):
+                self.next()
+            out.append(['arm', pat, body])
+        return out
+
+    def pattern(self):
+        alts = [self.pattern1()]
+        while self.at('p', '|'):
+            self.next()
+            alts.append(self.pattern1())
+        p = alts[-1]
+        for a in reversed(alts[:-1]):
+            p = ['palt', a, p]
+        return p
+
+    def pattern1(self):
+        k, t = self.peek()
+        if k == 'id' and t == '_':
+            self.next()
+            return ['pwild']
+        if k in ('str', 'chr', 'num'):
+            self.next()
+            return ['plit', k, t]
+        if k == 'p' and t == '(':
+            j = match_close(self.t, self.i)
+            sub = P(self.t, self.i + 1, j)
+            items = []
+            while sub.i < sub.end:
+                items.append(sub.pattern())
+                if sub.at('p', ','):
+                    sub.next()
+            self.i = j + 1
+            return items[0] if len(items) == 1 else ['ptuple', items]
+        if k == 'p' and t == '&':
+            self.next()
+            return self.pattern1()
+        if k == 'id':
+            if t.startswith('$') and self.peek(1) != ('p', '::'):
+                self.next()
+                return ['pmeta', t]
+            if t in ('ref', 'mut'):
+                self.next()
+                return self.pattern1()
+            name, _targs = self.path()
+            if self.at('p', '('):
+                j = match_close(self.t, self.i)
+                sub = P(self.t, self.i + 1, j)
+                items = []
+                while sub.i < sub.end:
+                    items.append(sub.pattern())
+                    if sub.at('p', ','):
+                        sub.next()
+                self.i = j + 1
+                return ['pctor', name, items]
+            if '::' in name or name[:1].isupper():
+                return ['pctor', name, []]
+            return ['pbind', name]
+        raise BodyError('pattern: unexpected token %s %r' % (k, t))
 
     def expr_no_struct(self):
         self.no_struct = True
@@ -694,6 +856,8 @@ class ToLean:
             if t.isdigit():
                 return '(.lit %d)' % int(t)
             return self.opaque('lit ' + e[1])
+        if k in ('strlit', 'chrlit'):
+            return self.opaque('lit ' + repr(e[1]))
         if k == 'path':
             return '(.fn0 %s)' % self.fn(e[1], e[2])
         if k == 'call':
@@ -783,6 +947,288 @@ class ToLean:
         if k == 'basefactor':
             return '(.baseFactor %s .D)' % typ(e[1])
         return self.opaque(str(e))
+
+
+# ---------------------------------------------------------------------------------------------
+# JSON AST  ->  Lean `Uom.Rx.Rx`  (control flow over Option / Result / strings; Model/Rx.lean)
+# ---------------------------------------------------------------------------------------------
+RX_STRIP = ('$crate::', 'crate::', 'lib::', 'cmp::', 'super::', '__system::', 'self::', 'fmt::', 'num::pow::',
+            'convert::', 'str::')
+RX_PATHS = ['None', 'Some', 'Ok', 'Err', 'Ordering::Less', 'Ordering::Equal', 'Ordering::Greater']
+RX_METHS = ['splitn', 'next', 'unwrap', 'ok_or', 'map_err', 'and_then', 'trim', 'fmt', 'cmp']
+V_REP = 1000
+
+
+def rx_strip(name):
+    segs = name.split('::')
+    changed = True
+    while changed:
+        changed = False
+        for pre in RX_STRIP:
+            if name.startswith(pre):
+                name = name[len(pre):]
+                changed = True
+    return name
+
+
+def rx_norm_ty(t):
+    """type argument text -> normalised (`super :: super :: $unit` -> `$unit`)"""
+    t = t.replace(' ', '')
+    changed = True
+    while changed:
+        changed = False
+        for pre in RX_STRIP:
+            if t.startswith(pre):
+                t = t[len(pre):]
+                changed = True
+    return t
+
+
+class RxNames:
+    def __init__(self):
+        self.tabs = {'c': {n: i for i, n in enumerate(RX_PATHS)}, 'm': {n: i for i, n in enumerate(RX_METHS)},
+                     'fld': {}, 'op': {}, 'ty': {}, 'meta': {}, 'opq': {}}
+
+    def code(self, tab, text):
+        t = self.tabs[tab]
+        if text not in t:
+            t[text] = len(t)
+        return t[text]
+
+
+def bytes_lit(s):
+    return '[' + ', '.join(str(b) for b in s.encode('utf-8')) + ']'
+
+
+class ToRx:
+    """translate one function body; anything outside the subset becomes `.opaque`"""
+
+    def __init__(self, names, params):
+        self.n = names
+        self.scope = {}
+        for p in params:
+            self.scope.setdefault(p, len(self.scope))
+        self.nparams = len(self.scope)
+        self.next_id = len(self.scope)
+
+    def bind(self, name):
+        i = self.next_id
+        self.next_id += 1
+        self.scope[name] = i
+        return i
+
+    def opaque(self, text):
+        return '(.opaque %d)' % self.n.code('opq', text)
+
+    # -- patterns
+    def pat(self, p):
+        k = p[0]
+        if k == 'pwild':
+            return '.wild'
+        if k == 'pbind':
+            return '(.bind %d)' % self.bind(p[1])
+        if k == 'pmeta':
+            return '(.metaVar %d)' % self.n.code('meta', p[1])
+        if k == 'plit':
+            if p[1] == 'str':
+                return '(.str %s)' % bytes_lit(p[2])
+            raise BodyError('literal pattern')
+        if k == 'pctor':
+            name = rx_strip(p[1])
+            if len(p[2]) == 0:
+                return '(.ctor0 %d)' % self.n.code('c', name)
+            if len(p[2]) == 1:
+                return '(.ctor1 %d %s)' % (self.n.code('c', name), self.pat(p[2][0]))
+            raise BodyError('constructor pattern arity')
+        if k == 'ptuple':
+            if len(p[1]) == 2:
+                a = self.pat(p[1][0])
+                b = self.pat(p[1][1])
+                return '(.tup2 %s %s)' % (a, b)
+            raise BodyError('tuple pattern arity')
+        if k == 'palt':
+            a = self.pat(p[1])
+            b = self.pat(p[2])
+            return '(.alt %s %s)' % (a, b)
+        raise BodyError('pattern ' + k)
+
+    # -- names with macro metavariables take the repetition index as a leading argument
+    def fname(self, name, targs):
+        n = rx_strip(name)
+        # a qualified path `<A as B>::f`: normalise inside the brackets
+        n = _re.sub(r'\$crate :: |crate :: |lib :: |typenum :: |num :: ', '', n)
+        full = n + ('::<' + ', '.join(rx_norm_ty(t) for t in targs) + '>' if targs else '')
+        rep = '$' in full
+        return self.n.code('c', full), rep
+
+    def block(self, b):
+        saved = dict(self.scope)
+        parts = []
+        for name, e in b['lets']:
+            ve = self.expr(e)
+            if name == '_':
+                parts.append(('seq', ve))
+            elif name.startswith('('):
+                parts.append(('seq', self.opaque('let ' + name)))
+            else:
+                parts.append(('let', self.bind(name), ve))
+        res = self.expr(b['result'])
+        for p in reversed(parts):
+            if p[0] == 'seq':
+                res = '(.seq %s %s)' % (p[1], res)
+            else:
+                res = '(.letIn %d %s %s)' % (p[1], p[2], res)
+        self.scope = saved
+        return res
+
+    def args(self, xs):
+        return [self.expr(x) for x in xs]
+
+    def expr(self, e):
+        try:
+            return self.expr1(e)
+        except BodyError as ex:
+            return self.opaque('%s: %s' % (ex, e))
+
+    def expr1(self, e):
+        k = e[0]
+        if k == 'var':
+            if e[1] in self.scope:
+                return '(.var %d)' % self.scope[e[1]]
+            c, rep = self.fname(e[1], [])
+            return '(.path %d)' % c
+        if k == 'lit':
+            t = e[1].replace('_', '')
+            if t.isdigit():
+                return '(.nat %d)' % int(t)
+            if t == '()':
+                return '.unit'
+            return self.opaque('lit ' + e[1])
+        if k == 'strlit':
+            return '(.str %s)' % bytes_lit(e[1])
+        if k == 'chrlit':
+            b = e[1].encode('utf-8')
+            if len(b) != 1:
+                raise BodyError('multi-byte char literal')
+            return '(.chr %d)' % b[0]
+        if k == 'path':
+            c, rep = self.fname(e[1], e[2])
+            if rep:
+                return '(.call1 %d (.var %d))' % (c, V_REP)
+            return '(.path %d)' % c
+        if k == 'call':
+            callee, args = e[1], e[2]
+            if callee[0] == 'path':
+                c, rep = self.fname(callee[1], callee[2])
+            elif callee[0] == 'var' and callee[1] not in self.scope:
+                c, rep = self.fname(callee[1], [])
+            else:
+                raise BodyError('call of a computed function')
+            a = self.args(args)
+            if rep:
+                a = ['(.var %d)' % V_REP] + a
+            if len(a) == 0:
+                return '(.call0 %d)' % c
+            if len(a) == 1:
+                return '(.call1 %d %s)' % (c, a[0])
+            if len(a) == 2:
+                return '(.call2 %d %s %s)' % (c, a[0], a[1])
+            raise BodyError('call arity %d' % len(a))
+        if k == 'method':
+            name, args = e[2], e[3]
+            targs = e[4] if len(e) > 4 else []
+            full = name + ('::<' + ', '.join(rx_norm_ty(t) for t in targs) + '>' if targs else '')
+            if '$' in full:
+                raise BodyError('metavariable in a method name')
+            m = self.n.code('m', full)
+            recv = self.expr(e[1])
+            if len(args) == 1 and args[0][0] == 'closure':
+                pats, body = args[0][1], args[0][2]
+                if len(pats) != 1:
+                    raise BodyError('closure arity')
+                saved = dict(self.scope)
+                p = self.pat(pats[0])
+                b = self.expr(body)
+                self.scope = saved
+                return '(.mClos %s %d %s %s)' % (recv, m, p, b)
+            a = self.args(args)
+            if len(a) == 0:
+                return '(.m0 %s %d)' % (recv, m)
+            if len(a) == 1:
+                return '(.m1 %s %d %s)' % (recv, m, a[0])
+            if len(a) == 2:
+                return '(.m2 %s %d %s %s)' % (recv, m, a[0], a[1])
+            raise BodyError('method arity %d' % len(a))
+        if k == 'rep_chain':
+            recv, chain = self.expr(e[1]), e[2]
+            if chain[0] == 'method' and chain[1] == ['rep_hole'] and len(chain[3]) == 1 and chain[3][0][0] == 'closure':
+                pats, body = chain[3][0][1], chain[3][0][2]
+                if len(pats) != 1:
+                    raise BodyError('closure arity')
+                saved = dict(self.scope)
+                p = self.pat(pats[0])
+                b = self.expr(body)
+                self.scope = saved
+                return '(.repChainClos %s %d %s %s)' % (recv, self.n.code('m', chain[2]), p, b)
+            raise BodyError('method-chain repetition shape')
+        if k == 'field':
+            return '(.field %s %d)' % (self.expr(e[1]), self.n.code('fld', e[2]))
+        if k == 'bin':
+            return '(.bin %d %s %s)' % (self.n.code('op', e[1]), self.expr(e[2]), self.expr(e[3]))
+        if k == 'neg':
+            return '(.neg %s)' % self.expr(e[1])
+        if k in ('ref', 'deref'):
+            return '(.ref %s)' % self.expr(e[1])
+        if k == 'cast':
+            return '(.cast %s %d)' % (self.expr(e[1]), self.n.code('ty', e[2]))
+        if k == 'tuple':
+            if len(e[1]) == 2:
+                return '(.tup2 %s %s)' % (self.expr(e[1][0]), self.expr(e[1][1]))
+            raise BodyError('tuple arity')
+        if k == 'try':
+            return '(.try_ %s)' % self.expr(e[1])
+        if k == 'return':
+            return '(.ret %s)' % self.expr(e[1])
+        if k == 'if':
+            c = self.expr(e[1])
+            t = self.block(e[2])
+            el = self.block(e[3]) if e[3] is not None else '.unit'
+            return '(.ite %s %s %s)' % (c, t, el)
+        if k == 'block':
+            return self.block(e[1])
+        if k == 'match':
+            s = self.expr(e[1])
+            arms = '.noArm'
+            built = []
+            for a in e[2]:
+                saved = dict(self.scope)
+                p = self.pat(a[1])
+                b = self.expr(a[2])
+                self.scope = saved
+                built.append((a[0], p, b))
+            for kind, p, b in reversed(built):
+                arms = '(.%s %s %s %s)' % ('repArm' if kind == 'rep' else 'arm', p, b, arms)
+            return '(.matchOn %s %s)' % (s, arms)
+        if k == 'macro' and e[1] == 'write' and len(e[2]) in (3, 4) and e[2][1][0] == 'strlit':
+            dst = self.expr(e[2][0])
+            fmt = bytes_lit(e[2][1][1])
+            a = self.args(e[2][2:])
+            return '(.write%d %s %s %s)' % (len(a), dst, fmt, ' '.join(a))
+        raise BodyError('outside the Rx subset: ' + k)
+
+
+def collect_rx(raw):
+    """raw: key -> body dict (from `collect`); -> [(key, nparams, lean)], RxNames"""
+    names = RxNames()
+    out = []
+    for key, body in raw.items():
+        tr = ToRx(names, body.get('params', []))
+        try:
+            lean = tr.block(body)
+        except Exception as ex:      # noqa
+            lean = '(.opaque %d)' % names.code('opq', 'untranslatable %s' % ex)
+        out.append((key, tr.nparams, lean))
+    return out, names
 
 
 def impl_disc(hdr):
